@@ -22,7 +22,7 @@ import (
 func init() {
 	fw.Register(&fw.Prop{
 		ID: "C17", Level: "exploration",
-		Rule: "one case = one generated session of a statically scoped program: 1-4 files minified together and loaded in order, 1-4 packages (in-package/export/use-package/qualified names), every binding form (let let* flet labels lambda defun defmacro macrolet dotimes), shadowing of locals/parameters/globals/builtins, closures and set!, labels mutual recursion, defmacro quasiquote templates naming globals, quoted data and identifiers spelled like renamed names or like minifier output (x1 x2 ...), excluded names, keyword arguments only when parameters are never renamed; each session is judged under the command defaults plus up to three of {rename-exports, rename-params, exclusions}; the files are named plainly (f1.lisp ...) in a third of the sessions and otherwise placed in directories (one level, nested, shared), with equal base names in different directories, absolute / relative / mixed spellings, ./ and ../ prefixes, spaces, dots, non-ASCII letters and | : \\ # in names, missing or doubled extensions; a third of the multi-file cases hand the files to Minify in another order than the load order (reversed, sorted by path, rotated); a later file may start with a copy under another package name, laid out alike, of the segment that opens an earlier file (equal definitions at equal line:column in two files); about a quarter of the sessions contain one or two groups 'template names resolved at the expansion site': a defmacro of the using package or of a library package (exported and imported, or called as lib:macro; written in the file of the call or in an earlier one) whose template names a helper function and a global variable that only the USING package defines (in the same or another file), in call-head, argument, let/let* initialiser inside bracket or parenthesised binding lists, flet/labels binding bodies, lambda bodies, function-value arguments of funcall/apply/map, bracketed cond clauses, thread-first steps, dotimes bodies and the binder-macro shape (m name expr body...). A (session, configuration) pair is DISTINCT by (configuration, files, packages, outcome class of the original run, set of construct tags actually emitted) and counts only when the minifier reported at least one rename (otherwise trivial).",
+		Rule: "one case = one generated session of a statically scoped program: 1-4 files minified together and loaded in order, 1-4 packages (in-package/export/use-package/qualified names), every binding form (let let* flet labels lambda defun defmacro macrolet dotimes), shadowing of locals/parameters/globals/builtins, closures and set!, labels mutual recursion, defmacro quasiquote templates naming globals, quoted data and identifiers spelled like renamed names or like minifier output (x1 x2 ...), excluded names, keyword arguments only when parameters are never renamed; each session is judged under the command defaults plus up to three of {rename-exports, rename-params, exclusions}; the files are named plainly (f1.lisp ...) in a third of the sessions and otherwise placed in directories (one level, nested, shared), with equal base names in different directories, absolute / relative / mixed spellings, ./ and ../ prefixes, spaces, dots, non-ASCII letters and | : \\ # in names, missing or doubled extensions; a third of the multi-file cases hand the files to Minify in another order than the load order (reversed, sorted by path, rotated); a later file may start with a copy under another package name, laid out alike, of the segment that opens an earlier file (equal definitions at equal line:column in two files); about a quarter of the sessions contain one or two groups 'template names resolved at the expansion site': a defmacro of the using package or of a library package (exported and imported, or called as lib:macro; written in the file of the call or in an earlier one) whose template names a helper function and a global variable that only the USING package defines (in the same or another file), in call-head, argument, let/let* initialiser inside bracket or parenthesised binding lists, flet/labels binding bodies, lambda bodies, function-value arguments of funcall/apply/map, bracketed cond clauses, thread-first steps, dotimes bodies and the binder-macro shape (m name expr body...); about a fifth of the sessions (two fifths of the multi-file ones) contain one or two groups 'a name defined more than once, referenced from elsewhere': an earlier file defines one package-level name two or three times in one package (defun, (set 'n ()) as a declaration, set of an integer, set of a lambda, defmacro; every sequence with at least one defun), every form computing something else, nothing but definitions between them, and the name is referenced from the file being written and from all later code (call, funcall/apply of #'n, variable read, macro call; same package, pkg:n, export + use-package; at top level and in function bodies), sometimes from a function of a still earlier file that is only called afterwards, and - when the last form is a defun or defmacro - also in the defining file after the last definition; never where defect D8 applies (code running between the definitions; any other mention in the defining file when a set follows a defun). A (session, configuration) pair is DISTINCT by (configuration, files, packages, outcome class of the original run, set of construct tags actually emitted) and counts only when the minifier reported at least one rename (otherwise trivial).",
 		Assumptions: []string{
 			"the real evaluator (a FRESH runtime per run, files loaded in order with LoadString, core language without the stdlib packages) is the reference for 'meaning'; the check compares the original and the minified run and does not model scoping itself",
 			"transcripts compare the value (function values only as 'is a function'), the Runtime.Stderr bytes (skipped when the original printed a function value) and the error condition name; error messages and stack traces are not compared because they legitimately spell renamed symbols",
@@ -136,6 +136,9 @@ func c17PreSignature(sess *c17Session, cfg c17Cfg, f c17Finding) string {
 	sb.WriteString("|" + strings.Join(c17PathFeatures(sess.Paths), ","))
 	if sess.Used["twin-file"] > 0 {
 		sb.WriteString("|twin-file")
+	}
+	for _, rd := range sess.Redef {
+		sb.WriteString("|redef:" + rd.kinds() + "/" + rd.Access)
 	}
 	return sb.String()
 }
@@ -275,6 +278,7 @@ func c17OutputHash(m c17MinResult) uint64 {
 // with what the worker processes produced (determinism across processes: Go
 // randomises map layout per process).
 func c17Driver(d *fw.D) {
+	c17RedefFloor(d)
 	have := d.Sets["cross_process_output_hashes"]
 	if len(have) == 0 {
 		return
@@ -374,6 +378,14 @@ func c17Run(w *fw.W, idx int) {
 	if last.IsErr && c17MsgClass(last.Msg) == "unbound-symbol" {
 		w.Count("original_unbound_symbol", 1)
 	}
+	for _, rd := range sess.Redef {
+		w.Count("redef_groups_generated", 1)
+		w.SetAdd("redef_kinds_generated", rd.kinds())
+		w.SetAdd("redef_access_generated", rd.Access)
+		if last.IsErr {
+			w.Count("redef_groups_in_sessions_whose_original_ends_in_error", 1)
+		}
+	}
 
 	for _, cfg := range cfgs {
 		t1 := time.Now()
@@ -387,6 +399,7 @@ func c17Run(w *fw.W, idx int) {
 			w.SetAdd("cross_process_output_hashes", fmt.Sprintf("%d|%s|%016x", idx, cfg.name(), c17OutputHash(m1)))
 		}
 		nontrivial := len(m1.Map.Entries) > 0
+		c17RedefObserve(w, sess, cfg, m1)
 		for _, f := range findings {
 			if f.Cat == "unaligned" {
 				w.Count("map_check_unaligned_not_judged", 1)
@@ -682,4 +695,55 @@ func c17Key(min *c17Case, f *c17Finding, evals *int) string {
 		key += "@" + n
 	}
 	return key
+}
+
+// c17RedefObserve records what the minifier did with the groups "a name defined
+// more than once, referenced from elsewhere" of one (session, configuration):
+// how many of the name's defining forms it renamed (from the symbol map: one
+// entry per renamed defining form) - a group none of whose forms is renamed
+// (the name is excluded, exported under the defaults, named by a macro template)
+// exercises nothing.
+func c17RedefObserve(w *fw.W, sess *c17Session, cfg c17Cfg, m c17MinResult) {
+	if m.Err != nil {
+		return
+	}
+	for _, rd := range sess.Redef {
+		n := 0
+		for _, e := range m.Map.Entries {
+			if e.Original == rd.Name && e.Kind == "function" && e.File == sess.Paths[rd.File] {
+				n++
+			}
+		}
+		w.Count("redef_groups_judged", 1)
+		if n == 0 {
+			w.Count("redef_groups_judged_no_defining_form_renamed", 1)
+			continue
+		}
+		w.Count("redef_groups_judged_with_a_renamed_defining_form", 1)
+		w.SetAdd("redef_kinds_judged_with_a_renamed_defining_form", rd.kinds())
+		w.SetAdd("redef_access_judged_with_a_renamed_defining_form", rd.Access+"@"+cfg.name())
+		w.Max("redef_max_renamed_defining_forms_of_one_name", int64(n))
+		if cfg.Order != "" {
+			w.Count("redef_groups_judged_with_inputs_in_another_order_than_the_load_order", 1)
+		}
+	}
+}
+
+// c17RedefFloor: the family must have been generated AND have reached the
+// renaming of a defining form often enough, in enough kind sequences, or the run
+// says nothing about it.
+func c17RedefFloor(d *fw.D) {
+	minGroups, minKinds := int64(150), 12
+	if d.Tier == "thorough" {
+		minGroups, minKinds = 2500, 20
+	}
+	if got := d.Counters["redef_groups_judged_with_a_renamed_defining_form"]; got < minGroups {
+		d.Inconclusive(fmt.Sprintf("coverage floor not met: %d judged groups 'a name defined more than once, referenced from elsewhere' with a renamed defining form < %d", got, minGroups))
+	}
+	if got := len(d.Sets["redef_kinds_judged_with_a_renamed_defining_form"]); got < minKinds {
+		d.Inconclusive(fmt.Sprintf("coverage floor not met: %d kind sequences of names defined more than once were judged with a renamed defining form < %d", got, minKinds))
+	}
+	if got := d.Counters["redef_groups_judged_with_inputs_in_another_order_than_the_load_order"]; got == 0 {
+		d.Inconclusive("coverage floor not met: no group 'a name defined more than once' was minified with the inputs in another order than the load order")
+	}
 }
